@@ -140,6 +140,23 @@ def random_prms(rng, rows):
     return p
 
 
+def float_typed(prms, rng):
+    """The same parameter values written as floats where the documentation writes integers (250 -> 250.0): the value
+    is what counts."""
+    def conv(v):
+        if isinstance(v, bool) or v is None or isinstance(v, str):
+            return v
+        if isinstance(v, int):
+            return float(v)
+        if isinstance(v, dict):
+            return {k: conv(x) for k, x in v.items()}
+        if isinstance(v, list):
+            return [conv(x) for x in v]
+        return v
+    keep_int = ('LOWESS',)                      # `it` is an iteration count: statsmodels wants an int there
+    return {k: (conv(v) if (k not in keep_int and rng.random() < 0.8) else v) for k, v in prms.items()}
+
+
 def numpy_typed(prms, rng):
     """The same parameter values as NumPy scalars (values read from arrays / data frames are of these types):
     np.int64 / np.int32 for integers, np.float64 / np.float32 (only when exactly representable) for floats."""
@@ -164,7 +181,8 @@ def frame_variant(rng, rows):
     (ints), other dtypes for the numeric columns, an extra column, another column order.  Returns (frame, rows as the
     package will see them after normalisation, tag)."""
     how = rng.choice(['int_ceilo', 'int_ceilo', 'obj_ceilo', 'float_type', 'int8_type', 'extra_col', 'col_perm', 'object_all',
-                      'objint_ceilo', 'objint_ceilo', 'extra_col_unhashable'])
+                      'objint_ceilo', 'objint_ceilo', 'extra_col_unhashable', 'float32_cols', 'float32_cols', 'index_named',
+                      'index_named', 'dup_extra_cols'])
     if how in ('int_ceilo', 'objint_ceilo'):
         names = sorted({r[0] for r in rows})
         m = {c: i + 1 for i, c in enumerate(names)}
@@ -177,7 +195,22 @@ def frame_variant(rng, rows):
             mixed = rng.random() < 0.5
             df['ceilo'] = pd.Series([(m[c] if not (mixed and m[c] % 2 == 0) else str(m[c])) for c, *_ in rows], dtype=object)
         return df, rows2, how, {c: str(i) for c, i in m.items()}
+    if how == 'float32_cols':
+        # heights and time stamps held in float32 columns (the values are made float32-representable first, so that the
+        # table means the same in any precision; the checker casts to float64)
+        rows = [(c, float(np.float32(dt)), (float(np.float32(h)) if h == h else h), t) for c, dt, h, t in rows]
+        df = make_frame(rows)
+        df['height'] = df['height'].astype('float32')
+        if rng.random() < 0.5:
+            df['dt'] = df['dt'].astype('float32')
+        return df, rows, how, None
     df = make_frame(rows)
+    if how == 'index_named':
+        # the table indexed by one of its own columns (set_index(..., drop=False)): an index level named like a column
+        df = df.set_index(rng.choice(['dt', 'ceilo', 'height', 'type']), drop=False)
+    elif how == 'dup_extra_cols':
+        df['station'] = 'LSZH'
+        df = pd.concat([df, df[['station']]], axis=1)
     if how == 'obj_ceilo':
         df['ceilo'] = df['ceilo'].astype(object)
     elif how == 'float_type':
@@ -301,7 +334,7 @@ def data_rows(df):
 
 
 def run_scene(rows, prms, index=None, stages=('slices', 'groups', 'layers'), frame=None, debug_log=None, chunk_kwargs=None,
-              route='stepwise', kernel_fuzz=None):
+              route='stepwise', kernel_fuzz=None, plot_excursion=False):
     """Execute the real pipeline on one scene under recording.  Returns the observation dict.
     One scene in four (chosen from the scene itself) runs with the package's loggers at DEBUG."""
     common.import_ampycloud()
@@ -375,6 +408,18 @@ def run_scene(rows, prms, index=None, stages=('slices', 'groups', 'layers'), fra
             # queries are queries: after the messages and tables were read, the flag, the parameters and every table are what
             # they were (the chunk is only changed by its stage methods)
             ref = {st: snapshot(chunk, st) for st in stages}          # state after the last stage (snapshot = queries)
+            if plot_excursion:
+                # a diagnostic plot in between (not shown, not saved): another read-only use of the chunk
+                import matplotlib
+                matplotlib.use('Agg')
+                import matplotlib.pyplot as plt
+                from ampycloud.plots import diagnostic
+                try:
+                    diagnostic(chunk, upto='layers', show=False, save_stem=None)
+                except Exception:          # what the plot itself does is C20's business
+                    pass
+                finally:
+                    plt.close('all')
             again = {st: snapshot(chunk, st) for st in reversed(stages)}
             impure = [st for st in stages if again[st] != ref[st]]
             if ref[stages[-1]] != obs['levels'][stages[-1]]:
